@@ -148,7 +148,24 @@ func (p *PKI) reloadCerts(c *config.C, initial bool) *util.ContextualError {
 
 		if newState.v2Cert != nil {
 			if currentState.v2Cert == nil {
-				//adding certs is fine, actually
+				//adding certs is fine, actually, unless the v1 cert is dropped in the same reload:
+				//then the v2 cert is the node's whole identity and must match the old v1 cert
+				if newState.v1Cert == nil {
+					if !slices.Equal(currentState.v1Cert.Networks(), newState.v2Cert.Networks()) {
+						return util.NewContextualError(
+							"Replacing a V1 cert by a V2 cert is not permitted unless it has identical networks",
+							m{"new_v2_networks": newState.v2Cert.Networks(), "old_v1_networks": currentState.v1Cert.Networks()},
+							nil,
+						)
+					}
+					if currentState.v1Cert.Curve() != newState.v2Cert.Curve() {
+						return util.NewContextualError(
+							"Curve in new v2 cert was different from old v1 cert",
+							m{"new_curve": newState.v2Cert.Curve(), "old_curve": currentState.v1Cert.Curve()},
+							nil,
+						)
+					}
+				}
 			} else {
 				// did IP in cert change? if so, don't set
 				if !slices.Equal(currentState.v2Cert.Networks(), newState.v2Cert.Networks()) {
@@ -178,6 +195,13 @@ func (p *PKI) reloadCerts(c *config.C, initial bool) *util.ContextualError {
 				return util.NewContextualError(
 					"Removing a V2 cert is not permitted unless it has identical networks to the new V1 cert",
 					m{"new_v1_networks": newState.v1Cert.Networks(), "old_v2_networks": currentState.v2Cert.Networks()},
+					nil,
+				)
+			}
+			if currentState.v2Cert.Curve() != newState.v1Cert.Curve() {
+				return util.NewContextualError(
+					"Curve in new v1 cert was different from old v2 cert",
+					m{"new_curve": newState.v1Cert.Curve(), "old_curve": currentState.v2Cert.Curve()},
 					nil,
 				)
 			}
